@@ -15,3 +15,4 @@ import JominiModel.Props.C11
 #print axioms Jomini.Props.C11.C11_f64_big_integer_refused
 #print axioms Jomini.Props.C11.C11_f64_finite
 #print axioms Jomini.Props.C11.C11_f64_two_ulp
+#print axioms Jomini.Props.C11.C11_rne_within_half_ulp
